@@ -7,7 +7,7 @@ attach to the pending header. The result per valuation is a regular expression o
 and sub-writer nonterminals, checked for inclusion in the manual's grammar (sa/regular.py)."""
 import re
 from . import regular as R
-from . import tables
+from . import tables, parity
 from .facts import AnalysisBroken
 from .flow import lvalue_key, is_assign, _strip_casts, pretty_key
 
@@ -76,6 +76,7 @@ class Interp:
         self.pending = None
         self.issues = []
         self.even = set()
+        self.booldef = {}
         self.records = []
 
     # ---- relevance -----------------------------------------------------------------------
@@ -106,11 +107,66 @@ class Interp:
         return ('eps',), True
 
     def is_null_file_test(self, c):
-        c = _strip_casts(c)
-        if c.k == 'BinaryOperator' and c.op == '==':
-            l, r = c.child('lhs'), c.child('rhs')
-            return 'FILE *' in ((l.t or '') + (l.ct or '')) and r.is_null_const()
+        """`f == NULL` / `!f` on a FILE* (true means the open failed)"""
+        c0 = _strip_casts(c)
+        if c0.k == 'BinaryOperator' and c0.op == '==':
+            l, r = c0.child('lhs'), c0.child('rhs')
+            if 'FILE *' in ((l.t or '') + (l.ct or '')) and r.is_null_const():
+                return True
+            if 'FILE *' in ((r.t or '') + (r.ct or '')) and l.is_null_const():
+                return True
+        if c0.k == 'UnaryOperator' and c0.op == '!':
+            sub = c0.child('sub')
+            inner = _strip_casts(sub)
+            return inner is not None and 'FILE *' in ((inner.t or '') + (inner.ct or '')) and inner.k in ('DeclRefExpr', 'MemberExpr')
         return False
+
+    def _written_later(self, v):
+        for x in self.fn.walk():
+            t = None
+            if is_assign(x) or x.k == 'CompoundAssignOperator':
+                t = _strip_casts(x.child('lhs'))
+            elif x.k == 'UnaryOperator' and x.op in ('++', '--', 'post++', 'post--', '&'):
+                t = _strip_casts(x.child('sub'))
+            if t is not None and t.k == 'DeclRefExpr' and t.d == v.d:
+                return True
+        return False
+
+    def beval(self, c):
+        """truth value of a condition from the atoms of this valuation: !, &&, || and named conditions are evaluated structurally"""
+        c0 = _strip_casts(c)
+        bv = self.boolval(c0)
+        if bv is not None:
+            return bv
+        if self.is_null_file_test(c0):
+            return False
+        if c0.k == 'UnaryOperator' and c0.op == '!':
+            return not self.beval(c0.child('sub'))
+        if c0.k == 'BinaryOperator' and c0.op == '&&' and self._has_named(c0):
+            return self.beval(c0.child('lhs')) and self.beval(c0.child('rhs'))
+        if c0.k == 'BinaryOperator' and c0.op == '||' and self._has_named(c0):
+            return self.beval(c0.child('lhs')) or self.beval(c0.child('rhs'))
+        if c0.k == 'DeclRefExpr' and c0.dk == 'local' and lvalue_key(c0) in self.booldef:
+            return self._beval_def(self.booldef[lvalue_key(c0)])
+        key = cond_key(c0)
+        if key not in self.env:
+            raise NeedAtom(key)
+        return self.env[key]
+
+    def _beval_def(self, c):
+        c0 = _strip_casts(c)
+        if c0.k == 'BinaryOperator' and c0.op == '&&':
+            return self._beval_def(c0.child('lhs')) and self._beval_def(c0.child('rhs'))
+        if c0.k == 'BinaryOperator' and c0.op == '||':
+            a = self._beval_def(c0.child('lhs'))       # both operands are evaluated so that the set of atoms does not depend on the valuation
+            b = self._beval_def(c0.child('rhs'))
+            return a or b
+        if c0.k == 'UnaryOperator' and c0.op == '!':
+            return not self._beval_def(c0.child('sub'))
+        return self.beval(c0)
+
+    def _has_named(self, c):
+        return any(x.k == 'DeclRefExpr' and x.dk == 'local' and lvalue_key(x) in self.booldef for x in c.walk())
 
     def boolval(self, c):
         c = _strip_casts(c)
@@ -199,15 +255,7 @@ class Interp:
             if bv is None and self.is_null_file_test(s.child('cond')):
                 bv = False  # the output file was opened (the failure exit writes nothing and returns an error)
             if bv is None:
-                c0 = _strip_casts(s.child('cond'))
-                neg = False
-                while c0.k == 'UnaryOperator' and c0.op == '!':
-                    neg = not neg
-                    c0 = _strip_casts(c0.child('sub'))
-                key = cond_key(c0)
-                if key not in self.env:
-                    raise NeedAtom(key)
-                bv = self.env[key] != neg
+                bv = self.beval(s.child('cond'))
             br = s.child('then') if bv else s.child('else')
             if br is None:
                 return ('eps',), True
@@ -308,6 +356,9 @@ class Interp:
                 self.scal[key] = bool(i0.v)
             else:
                 self.scal[key] = self.val(init)
+                t_ = (v.ct or v.t or '').replace('const ', '').strip()
+                if t_ == 'bool' and self.scal[key] is None and not self._written_later(v):
+                    self.booldef[key] = init        # a named condition: evaluated from the atoms of its definition (keeps `t = a || b` and `a` consistent)
         else:
             self.scal[key] = None
         self.swapped.pop(key, None)
@@ -427,12 +478,12 @@ class Interp:
                     e = _strip_casts(init.c[i])
                     ok = False
                     for x in e.walk():
-                        if x.k == 'DeclRefExpr' and lvalue_key(x) in self.even:
-                            ok = True
+                        if x.k == 'DeclRefExpr' and (lvalue_key(x) in self.even or parity.even_at(self.fn, b['decl'], lvalue_key(x))):
+                            ok = True       # (the parity domain proves the variable even on every path reaching the buffer)
                         if x.k == 'UnaryExprOrTypeTraitExpr':
                             ok = True  # 4 + sizeof(T): constant even size asserted by the struct layout
                     if not ok:
-                        self.issues.append('%s: string record %s: length is not proved even (no `if (len %% 2) len++` on the length variable)' % (at.loc(), name))
+                        self.issues.append('%s: string record %s: length is not proved even on every path reaching the header (parity analysis of the length variable)' % (at.loc(), name))
                 self.pending = (name, dt, None)
                 break
             if slen is not None and L != slen:
